@@ -91,6 +91,12 @@ func TestDebugLayout(t *testing.T) {
 	for pi, p := range r.Pages {
 		wr.WalkBoxes(p, func(b bo.Box) bool {
 			bf := b.Box()
+			if bo.TableRowT.IsInstance(b) || bo.TableCellT.IsInstance(b) || bo.TableT.IsInstance(b) {
+				fmt.Printf("page %d %s: pos (%v,%v) width %v height %v grid x=%d cs=%d rs=%d\n", pi, b.Type(), bf.PositionX, bf.PositionY, bf.Width, bf.Height, bf.GridX, bf.Colspan, bf.Rowspan)
+				if tb, ok := b.(*bo.TableBox); ok {
+					fmt.Println("  columns", tb.ColumnWidths, tb.ColumnPositions)
+				}
+			}
 			if bf.Element != nil {
 				for _, a := range bf.Element.Attr {
 					if a.Key == "id" {
@@ -125,4 +131,14 @@ func TestDebugTexts(t *testing.T) {
 			return true
 		})
 	}
+}
+
+func TestDebugC13(t *testing.T) {
+	doc := os.Getenv("VERIF_DOC")
+	if doc == "" {
+		t.Skip("no VERIF_DOC")
+	}
+	v := c13Check(&C13Case{HTML: doc})
+	fmt.Println("sig:", v.Sig, "labels:", v.Labels, "excluded:", v.Excluded)
+	fmt.Println(firstLines(v.Msg, 1))
 }
